@@ -320,7 +320,9 @@ class Image(object):
 
     def i_blocks_sectors(self, ino_obj):
         """i_blocks in 512-byte units"""
-        n = ino_obj.i_blocks_lo | (ino_obj.i_blocks_high << 32)
+        # l_i_blocks_high only means something with the huge_file feature (as in the kernel's ext4_inode_blocks() and libext2fs's ext2fs_inode_i_blocks());
+        # without it the field is reserved and e2fsck only complains about it for inodes that a directory entry names
+        n = ino_obj.i_blocks_lo | ((ino_obj.i_blocks_high << 32) if (self.ro & RO_HUGE_FILE) else 0)
         if (self.ro & RO_HUGE_FILE) and (ino_obj.i_flags & FL_HUGE_FILE):
             n *= self.bs // 512
         return n
